@@ -53,6 +53,9 @@ inductive FAtom where
   | nsIndex
   /-- `krt.FilterIndex(valueIndex(sec), i.val)`: an index whose key changes when the object changes -/
   | valIndex
+  /-- `krt.FilterIndex(outsIndex(sec), outKeyOf i)`: an index whose extractor returns SEVERAL keys per
+      object (`o.outs`); the fetched objects are those with the key anywhere among them -/
+  | outIndex
   /-- `krt.FilterKeys(i.ref, i.ns/x)`: several keys -/
   | keys
   /-- `krt.FilterObjectName({Namespace: i.ns, Name: "y"})` -/
@@ -68,6 +71,10 @@ def genericPred (n : Nat) (i o : Obj) : Bool :=
   | 1 => o.name == i.name
   | _ => !o.outs.isEmpty
 
+/-- the key looked up in the multi-key index: chosen by the input's value -/
+def outKeyOf (i : Obj) : String :=
+  if i.val == "v1" then "k1" else if i.val == "v2" then "k2" else if i.val == "v3" then "k3" else "k4"
+
 /-- `filter.Matches` for one conjunct. -/
 def FAtom.matches (i : Obj) : FAtom → Obj → Bool
   | .key, o => o.key == i.ref
@@ -76,6 +83,7 @@ def FAtom.matches (i : Obj) : FAtom → Obj → Bool
   | .label, o => subsetOf i.sel o.labels
   | .nsIndex, o => o.ns == i.ns
   | .valIndex, o => o.val == i.val
+  | .outIndex, o => o.outs.contains (outKeyOf i)
   | .keys, o => o.key == i.ref || o.key == i.ns ++ "/x"
   | .objName, o => o.key == i.ns ++ "/y"
   | .generic n, o => genericPred n i o
